@@ -34,7 +34,11 @@ TOPOS["retsys"] = [O(x) for x in ("0", "2", "12", "32")]
 TOPOS["mclevel"] = [O(x) for x in ("0", "1", "11", "111", "1111", "2")]
 # every node has switched fragmentation and multicasting off and on again (and re-assigned its address, as documented)
 TOPOS["toggled"] = [O(x) for x in ("0", "3", "13", "213")]
-NODE_ATTR_SEQ = {"toggled": [("fragmentation", False), ("fragmentation", True), ("allow_multicast", False), ("allow_multicast", True),
+# the documentation's second network ("network_b"): every node assigns its own address bytes and then re-assigns the address
+# it already has, which is the documented way to make them take effect
+TOPOS["netb"] = [O(x) for x in ("0", "2", "12", "5")]
+NODE_ATTR_SEQ = {"netb": [("address_prefix", bytearray([0xDB])), ("address_suffix", bytearray([0xDD, 0x99, 0xB6, 0xD9, 0x9D, 0x66]))],
+                 "toggled": [("fragmentation", False), ("fragmentation", True), ("allow_multicast", False), ("allow_multicast", True),
                              ("multicast_relay", True), ("multicast_relay", False)]}
 NODE_ATTRS = {"retsys": {a: {"ret_sys_msg": True} for a in TOPOS["retsys"]},
               "mclevel": {O("1"): {"multicast_level": 0}, O("11"): {"multicast_level": 0}, O("111"): {"multicast_level": 4}, O("2"): {"multicast_level": 3}}}
@@ -332,7 +336,7 @@ def run(tier, seed, rep, only=None):
     return dict(
         level="model_checking",
         exhaustive=True,
-        rule="every ordered (src,dst) pair of 7 topologies (nodes that toggled fragmentation / multicasting off and on again, chain to depth 4 with 8-hop routes, bushy, mixed routing-only/full, a tree of re-addressed nodes, nodes with ret_sys_msg on, "
+        rule="every ordered (src,dst) pair of 8 topologies (the documentation's network_b: own address_prefix / address_suffix applied by re-assigning the same node_address, nodes that toggled fragmentation / multicasting off and on again, chain to depth 4 with 8-hop routes, bushy, mixed routing-only/full, a tree of re-addressed nodes, nodes with ret_sys_msg on, "
              "a chain whose routers have overridden multicast levels) x message "
              "lengths x fragmentation on/off x API x SPI-cost class x poll-latency class (per-run classes enumerated; per-delivery latency "
              "deviations explored exhaustively up to the stated deviation bound on 6 routes). One execution = all nodes running the real "
